@@ -1,7 +1,7 @@
 (** Property C04 — a message counter is accepted at most once per secure
     peer; newer ones always.  Property theorems only. *)
-From RsM Require Import Lib.MachInt Model.Dedup Model.DedupSpec
-  Proofs.DedupFacts Proofs.DedupTheorems Proofs.DedupGroup.
+From RsM Require Import Lib.MachInt Model.Dedup Model.DedupSpec Model.DedupRx
+  Proofs.DedupFacts Proofs.DedupTheorems Proofs.DedupGroup Proofs.DedupRx.
 Open Scope N_scope.
 
 (** Secure unicast session, every finite history from the fresh state. *)
@@ -129,3 +129,28 @@ Proof.
   split; [|vm_compute; reflexivity].
   repeat constructor; vm_compute; congruence.
 Qed.
+
+(** The group receive path (Model/DedupRx.v: the group counter store plus
+    the ephemeral sessions of senders, kept or dropped after every message):
+    for every sequence of authenticated group data messages the sender table
+    evolves exactly as if there were no sessions, and the path accepts only
+    what the sender's group counter window accepts - so the sender clauses
+    above are not weakened by sessions coming and going.  (Before the repair
+    the counters that reached a live session were never recorded: the
+    [Example] replays them.) *)
+Theorem C04_group_path_accepts_only_what_store_accepts : forall (ms : list gmsg) (s : grx),
+  Forall2 (fun p q => p = true -> q = true) (path_flags s ms) (store_flags (gx_store s) ms).
+Proof. exact path_accepts_only_what_store_accepts. Qed.
+Print Assumptions C04_group_path_accepts_only_what_store_accepts.
+
+Theorem C04_group_path_flags : forall (s : grx) (ms : list gmsg),
+  snd (grx_run grx_recv s ms) = path_flags s ms.
+Proof. exact grx_run_flags. Qed.
+Print Assumptions C04_group_path_flags.
+
+Example C04_replay_through_session_before_fix :
+  let ms := [(1, 7000, 257, 10, true); (1, 7000, 257, 11, true); (1, 7000, 257, 12, false);
+             (1, 7000, 257, 11, false); (1, 7000, 257, 12, false); (1, 7000, 257, 10, false)] in
+  snd (grx_run grx_recv_old grx_new ms) = [true; true; true; true; true; false] /\
+  snd (grx_run grx_recv grx_new ms) = [true; true; true; false; false; false].
+Proof. exact replay_through_session_before_fix. Qed.
